@@ -41,6 +41,7 @@ func runXracePlan(p xracePlan) (devs []Deviation, err error) {
 	restore := noiseHook(p.Seed, w.Name)
 	defer restore()
 	last := make([]int, len(p.Workers)) // last acknowledged counter per worker (0 = never)
+	var torn []string
 	var panics []string
 	var mu sync.Mutex
 	var wg sync.WaitGroup
@@ -79,6 +80,20 @@ func runXracePlan(p xracePlan) (devs []Deviation, err error) {
 					_ = ds.DeleteWithXattrs(ctx, key, []string{"_tmp"})
 				case "SubDel":
 					_ = ds.DeleteSubDocPaths(ctx, key, "_tmp")
+				case "PairWrite":
+					// body and xattr of a second key written together, both carrying the same number
+					_, cas, _ := ds.GetRaw("pair")
+					v := strconv.Itoa(wi*100000 + oi)
+					_, _ = ds.WriteWithXattrs(ctx, "pair", 0, cas, []byte(`{"v":`+v+`}`), map[string][]byte{"_pair": []byte(v)}, nil, nil)
+				case "PairRead":
+					body, xs, _, e := ds.GetWithXattrs(ctx, "pair", []string{"_pair"})
+					if e == nil && body != nil {
+						if want := `{"v":` + string(xs["_pair"]) + `}`; string(body) != want {
+							mu.Lock()
+							torn = append(torn, fmt.Sprintf("GetWithXattrs returned body %s together with _pair=%s", body, xs["_pair"]))
+							mu.Unlock()
+						}
+					}
 				}
 			}
 		}(wi, ops)
@@ -87,6 +102,10 @@ func runXracePlan(p xracePlan) (devs []Deviation, err error) {
 	restore()
 	for _, pn := range panics {
 		devs = append(devs, Deviation{Clause: "xrace.panic", Props: []string{"C07", "C20"}, Sig: "xrace.panic", Msg: "worker panicked: " + pn})
+	}
+	for _, tmsg := range torn {
+		devs = append(devs, Deviation{Clause: "xrace.torn", Props: []string{"C07", "C03"}, Sig: "xrace.torn", Msg: "a call that writes body and xattr together was observed half applied: " + tmsg})
+		break
 	}
 	names := []string{"_tmp"}
 	for wi := range p.Workers {
@@ -115,7 +134,7 @@ func genXracePlan(rt *rapid.T) xracePlan {
 		n := rapid.IntRange(4, 30).Draw(rt, "nops")
 		var ops []xraceOp
 		for i := 0; i < n; i++ {
-			ops = append(ops, xraceOp{K: pick(rt, []string{"SetOwn", "SetOwn", "SetOwn", "SetTmp", "RemoveTmp", "UpdTmp", "DelTmp", "DelTmp", "SubDel"}, "k"), H: rapid.IntRange(0, p.Handles-1).Draw(rt, "h")})
+			ops = append(ops, xraceOp{K: pick(rt, []string{"SetOwn", "SetOwn", "SetOwn", "SetTmp", "RemoveTmp", "UpdTmp", "DelTmp", "DelTmp", "SubDel", "PairWrite", "PairWrite", "PairRead", "PairRead"}, "k"), H: rapid.IntRange(0, p.Handles-1).Draw(rt, "h")})
 		}
 		p.Workers = append(p.Workers, ops)
 	}
@@ -124,7 +143,7 @@ func genXracePlan(rt *rapid.T) xracePlan {
 
 func TestC07Race(t *testing.T) {
 	st := statsFor("C07", "TestC07Race")
-	st.Rule = "generated plans of 2-5 goroutines x 4-30 xattr operations on one document through 1-3 handles (memory / disk), free-running with seeded noise at the hook points: every goroutine keeps overwriting a system xattr of its own with a counter (SetXattrs) and writes / removes / deletes-with-xattrs (SetXattrs, UpdateXattrs, RemoveXattrs, DeleteWithXattrs, DeleteSubDocPaths) a shared scratch xattr; no call ever names another goroutine's xattr, so at the end each of them holds its owner's last acknowledged value; non-trivial = at least 3 goroutines; distinct by plan"
+	st.Rule = "generated plans of 2-5 goroutines x 4-30 xattr operations on one document through 1-3 handles (memory / disk), free-running with seeded noise at the hook points: every goroutine keeps overwriting a system xattr of its own with a counter (SetXattrs) and writes / removes / deletes-with-xattrs (SetXattrs, UpdateXattrs, RemoveXattrs, DeleteWithXattrs, DeleteSubDocPaths) a shared scratch xattr; a second key is written body+xattr together (same number in both) and read with GetWithXattrs, which must never see the two apart; no call ever names another goroutine's xattr, so at the end each of them holds its owner's last acknowledged value; non-trivial = at least 3 goroutines; distinct by plan"
 	if replayMode() {
 		rp := loadReplay("TestC07Race")
 		if rp == nil {
